@@ -222,3 +222,45 @@ func H_C02_shared_child() {
 	}
 	verifReach("end")
 }
+
+// String() inside a history: serialise, change a nested container through its own reference (or through a
+// tree-form path of the root), serialise again — the second text denotes the current content
+func H_C02_string_after_nested_mutation() {
+	x, y := nondetInt(), nondetInt()
+	verifAssume(verifAnd(verifAnd(x >= 0, x < 10), verifAnd(y >= 0, y < 10)))
+	innerL := NewList(x)
+	innerO := NewObject("q", x)
+	var c any
+	isList := nondetIntRange(0, 1) == 0
+	if isList {
+		c = NewList(innerL, innerO, NewObject("deep", innerL))
+	} else {
+		c = NewObject("l", innerL, "o", innerO, "n", NewList(innerO))
+	}
+	first := hStringAny(c)
+	_, ok1 := refParse(first)
+	verifAssert(ok1, "String() is one syntactically valid RFC 8259 text")
+	switch nondetIntRange(0, 4) {
+	case 0:
+		innerL.Add(y)
+	case 1:
+		innerO.Set("q", y)
+	case 2:
+		innerO.Set("r", NewList(y))
+	case 3:
+		if isList {
+			c.(List).SetTF("#0#0", y)
+		} else {
+			c.(Object).SetTF(".l#0", y)
+		}
+	default:
+		innerL.Clear()
+	}
+	now := hSnapAny(c)
+	got, ok := refParse(hStringAny(c))
+	verifAssert(ok, "String() is one syntactically valid RFC 8259 text")
+	if ok {
+		verifAssert(hExact(now, got), "after a change inside a nested container String() denotes the current content")
+	}
+	verifReach("end")
+}
